@@ -191,12 +191,13 @@ class C02(Profile):
         rng = random.Random(f"C02:{seed}")
         th = tier == "thorough"
         n_inst = 14 if th else 6
-        recs = [r for r in corpus_recs() + grid_recs(["objectives", "minmax", "sumchains", "inline", "math", "duplication", "unused", "cleanup", "normalize"]) if has_objective(r["program"])]
+        recs = [r for r in corpus_recs() + grid_recs(["objectives", "extra", "minmax", "sumchains", "inline", "math", "duplication", "unused", "cleanup", "normalize"]) if has_objective(r["program"])]
         singles = [["minmax_chains"], ["sum_chains"], ["inline"], ["math"]]
         pairs = [["math", "inline"], ["minmax_chains", "sum_chains"], ["minmax_chains", "inline"], ["sum_chains", "math"], ["minmax_chains", "math"], ["sum_chains", "inline"]]
         out = []
         checks = ["equiv"] + (["stepwise"] if th else [])
-        for rec in recs:
+        corp_obj = [r for r in recs if r.get("tag") == "corpus"]
+        for rec in (recs if th else corp_obj + pick([r for r in recs if r.get("tag") != "corpus"], 650, rng)):
             inn = cases.explicit_in(rec["program"], rec.get("in"))
             outs = []
             if rec.get("out") is not None:
@@ -206,7 +207,7 @@ class C02(Profile):
                 outs.append([list(p) for p in cases.head_preds(rec["program"])])
             configs = [list(DEFAULT_TRAITS), own_traits(rec)] + (singles + pairs + [list(TRAITS)] if th else [rng.choice(singles), rng.choice(pairs)])
             seen = set()
-            for oi, outp in enumerate(outs[: 3 if th else 2]):
+            for oi, outp in enumerate(outs[: 3 if th else 1]):
                 for tr in configs:
                     key = (tuple(tr), str(outp))
                     if key in seen:
@@ -863,8 +864,8 @@ class C20(Profile):
         rng = random.Random(f"C20:{seed}")
         th = tier == "thorough"
         n_inst = 14 if th else 6
-        recs = [r for r in corpus_recs() if r["trait"] in ("symmetry", "minmax_chains", "sum_chains", "dependency")] + grid_recs(["domains", "minmax", "sumchains", "symmetry", "objectives"])
-        sel = recs if th else pick(recs, 700, rng)
+        recs = [r for r in corpus_recs() if r["trait"] in ("symmetry", "minmax_chains", "sum_chains", "dependency")] + grid_recs(["domains", "minmax", "sumchains", "symmetry", "objectives"]) + [r for r in grid_recs(["extra"]) if r["trait"] in ("symmetry", "minmax_chains", "sum_chains")]
+        sel = recs if th else pick(recs, 800, rng)
         three = ["symmetry", "minmax_chains", "sum_chains"]
         out = []
         for rec in sel:
